@@ -193,10 +193,16 @@ def validate(rep, prop, hists, scratch, label='store'):
         if t < 0:
             continue
         rules = tlc.pick_failing_rules(diags.get(t, []))
-        if 'op_not_applicable' in rules or not rules:
-            raise tlc.MachineryFailure('history %s not applicable in the specification: %s'
-                                       % (json.dumps(hists[t]), rules))
         owners = set()
+        if 'op_not_applicable' in rules or not rules:
+            # The histories are generated from a model of the operations that
+            # agrees with the specification: when the specification cannot take the
+            # step the implementation took, and no rule names the difference, the
+            # hierarchy has come apart from the specification earlier than the
+            # rules could tell (C09: it did not change as specified; C10: the
+            # engine no longer runs it).
+            rules = sorted(set(rules) | {'unexplained'})
+            owners.update(['C09', 'C10'])
         for r in rules:
             owners.update(RULE_OWNER.get(r, []))
         # an exception out of update(): the operations were not all carried out
